@@ -10,6 +10,7 @@
   `WFm m` = what `load` establishes and the facades keep: the three maps have unique sorted
   keys and (bk, tk) are the section names `kind` prescribes.
 -/
+import YtkModel.Generated.Constants
 import YtkProofs.K8s
 import YtkProofs.RebuildB
 import YtkProofs.ValidB
@@ -271,5 +272,11 @@ theorem nonvacuous_errors :
     load (.obj [("data", .obj [("a", strVal "$$$")]), ("kind", strVal "Secret")]) = .err ∧
     load (.arr []) = .err := by
   decide
+
+/-- Tie to the source text (regenerated on every run): the section keys the model uses. -/
+theorem source_constants :
+    Generated.const? "k8s.keyData" = some "data" ∧
+    Generated.const? "k8s.keyStringData" = some "stringData" ∧
+    Generated.const? "k8s.keyBinaryData" = some "binaryData" := by decide
 
 end Ytk.C17
